@@ -195,12 +195,38 @@ def _tx_tuple(d):
             wits, d["locktime"])
 
 
+def _wreck(v, depth=0):
+    """what remains of a library result after this harness has copied what it needs: every mutable container the library
+    handed out is emptied in place (innermost first).  A cache / module-level template that hands the SAME objects to a
+    later caller then answers that caller with the wrecked value (a consumer editing a returned dict in place - flipping
+    txid to RPC byte order, popping "raw", clearing "txouts" - does a milder version of the same)."""
+    if depth > 8:
+        return
+    try:
+        if isinstance(v, dict):
+            for x in list(v.values()):
+                _wreck(x, depth + 1)
+            v.clear()
+        elif isinstance(v, (list, bytearray)):
+            if isinstance(v, list):
+                for x in v:
+                    _wreck(x, depth + 1)
+            v.clear()
+        elif isinstance(v, tuple):
+            for x in v:
+                _wreck(x, depth + 1)
+    except Exception:
+        pass
+
+
 def _merkle_root(l):
     import bits.blockchain as m
-    l2 = list(l)
-    r = m.merkle_root(l2)
-    assert l2 == list(l), "merkle_root modified its argument"
-    return r
+    before = [bytes(x) for x in l]
+    r = m.merkle_root(l)            # the caller's own list object goes to the library (common.py's @reuselist variant)
+    assert [bytes(x) for x in l] == before, "merkle_root modified its argument"
+    out = bytes(r) if isinstance(r, (bytearray, memoryview)) else r
+    _wreck(r)
+    return out
 
 
 def _coinbase_txin(cs, seq, h):
@@ -220,19 +246,28 @@ def _block_header(v, p, m, t, b, n):
 
 def _block_header_deser(b):
     import bits.blockchain as bc
-    return _hdr_tuple(bc.block_header_deser(b))
+    d = bc.block_header_deser(b)
+    out = _hdr_tuple(d)
+    _wreck(d)
+    return out
 
 
 def _block_ser(h, txs):
     import bits.blockchain as bc
-    return bc.block_ser(h, list(txs))
+    before = [bytes(x) for x in txs]
+    r = bc.block_ser(h, txs)
+    assert [bytes(x) for x in txs] == before, "block_ser modified its argument"
+    return r
 
 
 def _block_deser(b):
     import bits.blockchain as bc
     d = bc.block_deser(b)
-    assert set(d) == {"version", "prev_blockheaderhash", "merkle_root_hash", "nTime", "nBits", "nNonce", "txns"}, sorted(d)
-    return (_hdr_tuple(d), [_tx_tuple(t) for t in d["txns"]])
+    try:
+        assert set(d) == {"version", "prev_blockheaderhash", "merkle_root_hash", "nTime", "nBits", "nNonce", "txns"}, sorted(d)
+        return (_hdr_tuple(d), [_tx_tuple(t) for t in d["txns"]])
+    finally:
+        _wreck(d)
 
 
 def _genesis_block():
@@ -240,13 +275,14 @@ def _genesis_block():
     return bc.genesis_block()
 
 
-def _mine_block_assemble(spk, height, regtest, raws):
-    """bits.integrations.mine_block with the RPC layer and scriptpubkey() replaced; returns the coinbase transaction and
-    the merkle root of the block it submits"""
+def _mine_block_assemble(spk, height, regtest, raws, via_cli=False):
+    """bits.integrations.mine_block (or `bits mine --limit 1`) with the RPC layer and scriptpubkey() replaced; returns the
+    coinbase transaction and the merkle root of the block it submits"""
     import bits.integrations as integ
     import bits.rpc
     import bits.script
     sub = {}
+    raws = [bytes(x) for x in raws]
     txids = ["%064x" % i for i in range(len(raws))]
 
     def rpc(name, *args, **kw):
@@ -267,13 +303,22 @@ def _mine_block_assemble(spk, height, regtest, raws):
             return None
         raise RuntimeError("unexpected rpc " + name)
 
-    old = (bits.rpc.rpc_method, bits.script.scriptpubkey)
-    bits.rpc.rpc_method = rpc
-    bits.script.scriptpubkey = lambda addr: spk
-    try:
-        integ.mine_block(b"recv-addr")
-    finally:
-        bits.rpc.rpc_method, bits.script.scriptpubkey = old
+    if via_cli:
+        import cli
+        r = cli.run_main(["mine", "--recv-addr", "recv-addr", "--limit", "1"],
+                         stubs={"bits.rpc.rpc_method": rpc, "bits.script.scriptpubkey": lambda addr: bytes(spk)})
+        if r["exc"] is not None or r["exit"] not in (None, 0) or (isinstance(r["ret"], str) and r["ret"].startswith("ERROR")):
+            raise RuntimeError("bits mine refused: %r %r" % (r["exc"], r["ret"]))
+        if b"1 blocks mined" not in r["out"]:
+            raise CliMalformed("bits mine --limit 1 did not report one mined block: %r" % r["out"][:80])
+    else:
+        old = (bits.rpc.rpc_method, bits.script.scriptpubkey)
+        bits.rpc.rpc_method = rpc
+        bits.script.scriptpubkey = lambda addr: bytes(spk)
+        try:
+            integ.mine_block(b"recv-addr")
+        finally:
+            bits.rpc.rpc_method, bits.script.scriptpubkey = old
     blk = sub["block"]
     n, o = rd_varint(blk, 80)
     assert n == len(raws) + 1, "transaction count of the submitted block"
@@ -286,7 +331,57 @@ def _mine_block_assemble(spk, height, regtest, raws):
     return (cb, hdr[36:68])
 
 
+def _seq(steps):
+    """a history of calls in ONE process, every library result wrecked as soon as it has been copied (the wrappers do
+    that): each answer must be the one a fresh call gives.  steps = [[op, [args...]], ...]"""
+    out = []
+    for op, args in steps:
+        try:
+            out.append(["ok", IMPL[op](*args)])
+        except Exception as e:
+            if getattr(e, "harness_violation", False):
+                raise
+            out.append(["err", None])
+    return out
+
+
+from cliutil import fmt_in as _fmt_in, fmt_out as _fmt_out, result as _cli_result, CliMalformed   # noqa: E402
+
+
+def _cli_json(out):
+    import json
+    import os
+    nl = os.linesep.encode()
+    if not out.endswith(nl) or out.count(nl) != 1:
+        raise CliMalformed("JSON output is not one newline-terminated line")
+    return json.loads(out.decode("utf-8"))
+
+
+def _cli_block_decode(b, fmt, header_only, via="stdin"):
+    """`bits blockchain --decode [-H] -1 fmt` on a block: the JSON it prints, in the canonical form of block_deser /
+    block_header_deser"""
+    import cliutil
+    argv = ["blockchain", "--decode"] + (["--header-only"] if header_only else []) + ["-1", fmt]
+    d = _cli_json(_cli_result(cliutil.run(argv, _fmt_in(b, fmt), via)))
+    return _hdr_tuple(d) if header_only else (_hdr_tuple(d), [_tx_tuple(t) for t in d["txns"]])
+
+
+def _cli_genesis(fmt, header_only, decode, via="stdout"):
+    """`bits blockchain 0 [-H] [--decode] -0 fmt`"""
+    import cliutil
+    argv = ["blockchain", "0"] + (["--header-only"] if header_only else []) + (["--decode"] if decode else []) + ["-0", fmt]
+    out = _cli_result(cliutil.run(argv, b"", "stdin+out" if via == "file" else "stdin"))
+    if decode:
+        d = _cli_json(out)
+        return _hdr_tuple(d) if header_only else (_hdr_tuple(d), [_tx_tuple(t) for t in d["txns"]])
+    return _fmt_out(out, fmt)
+
+
 IMPL = {
+    "seq": _seq,
+    "cli_block_decode": _cli_block_decode,
+    "cli_genesis": _cli_genesis,
+    "cli_mine_block_assemble": lambda spk, h, rt, raws: _mine_block_assemble(spk, h, rt, raws, via_cli=True),
     "merkle_root": _merkle_root,
     "coinbase_txin": _coinbase_txin,
     "coinbase_tx": _coinbase_tx,
@@ -299,10 +394,34 @@ IMPL = {
 }
 
 
+GENESIS_FIELDS = [1, NULL32, GENESIS[36:68], int.from_bytes(GENESIS[68:72], "little"), GENESIS[72:76],
+                  int.from_bytes(GENESIS[76:80], "little")]
+
+
 def model_call(c):
-    if c["op"] == "genesis_block":     # the expected value is the published genesis block, rebuilt by the model's block_ser
+    op, a = c["op"], c["args"]
+    if op == "genesis_block":     # the expected value is the published genesis block, rebuilt by the model's block_ser
         return ("c15_block_ser", [GENESIS[:80], [GENESIS[81:]]])
-    return ("c15_" + c["op"], c["args"])
+    if op == "seq":               # a sequence of model calls (common.model_eval): the model has no history
+        return [model_call({"op": o, "args": list(x)}) for (o, x) in a[0]]
+    if op == "cli_block_decode":  # judged by the model of the library call the subcommand wraps (canon picks the header)
+        return ("c15_block_deser", [a[0]])
+    if op == "cli_genesis":
+        if a[2]:
+            return ("c15_block_deser", [GENESIS])
+        return ("c15_block_header", GENESIS_FIELDS) if a[1] else ("c15_block_ser", [GENESIS[:80], [GENESIS[81:]]])
+    if op == "cli_mine_block_assemble":
+        return ("c15_mine_block_assemble", a)
+    return ("c15_" + op, a)
+
+
+def canon(c, v):
+    """--header-only prints block_header_deser(header) AFTER block_deser(block) succeeded: of the model's
+    (header, txns) only the header is compared"""
+    hdr_only = (c["op"] == "cli_block_decode" and c["args"][2]) or (c["op"] == "cli_genesis" and c["args"][1] and c["args"][2])
+    if hdr_only and isinstance(v, (list, tuple)) and len(v) == 2 and isinstance(v[0], (list, tuple)):
+        return v[0]
+    return v
 
 
 # ------------------------------------------------------------------------------------------------
@@ -499,7 +618,70 @@ def gen_cases(rng, tier):
             txs = [gen_tx(rng, mode == "segwit" or (mode == "mixed" and i == n - 1)) for i in range(n)]
             h = rng.choice([0, 15, 16, 100, 148, 149, 150, 299, 209998, 209999, 210000, 32766, 32767])
             out.append(case("mine-%s" % mode, "mine_block_assemble", SPK, h, rng.random() < 0.6, txs))
-    return out
+    # ---- histories: several calls in one process, the earlier (library) results mutated in place in between; every
+    #      answer is judged by the (history-free) model ----
+    sq = []      # reported first: a replay of a history is self-contained, a single call that only fails after others is not
+
+    def blk(hdr, txs):
+        return hdr + ref_varint(len(txs)) + b"".join(txs)
+    for k in range(6 if T else 3):
+        for mode in ("legacy", "segwit", "mixed"):
+            txs = [gen_tx(rng, mode == "segwit" or (mode == "mixed" and i % 2 == 1)) for i in range(rng.choice([1, 2, 3, 5]))]
+            h1, h2 = rng.randbytes(80), rng.randbytes(80)
+            b1 = blk(h1, txs)
+            sq.append(case("seq-block-twice", "seq", [["block_deser", [b1]], ["block_deser", [b1]], ["block_deser", [b1]]]))
+            # the same transactions under another header (a re-mined block) / a block that shares only a tail or a head
+            sq.append(case("seq-block-rehdr", "seq", [["block_deser", [b1]], ["block_deser", [blk(h2, txs)]],
+                                                       ["block_header_deser", [h1]], ["block_header_deser", [h1]]]))
+            sq.append(case("seq-block-shared-tail", "seq", [["block_deser", [blk(h1, txs + txs[-1:])]],
+                                                             ["block_deser", [blk(h2, txs[-1:])]],
+                                                             ["block_deser", [blk(h1, txs[-1:] + txs)]]]))
+            sq.append(case("seq-deser-ser-deser", "seq", [["block_deser", [b1]], ["block_ser", [h1, txs]], ["block_deser", [b1]],
+                                                           ["block_ser", [h2, txs[:1]]]]))
+            sq.append(case("seq-mine-deser", "seq", [["mine_block_assemble", [SPK, 200 + k, True, txs]], ["block_deser", [b1]],
+                                                      ["mine_block_assemble", [SPK, 200 + k, True, txs]],
+                                                      ["mine_block_assemble", [SPK, 201 + k, False, txs[:1]]]]))
+            sq.append(case("seq-bad-then-good", "seq", [["block_deser", [b1[:-3]]], ["block_deser", [b1]], ["block_deser", [b1 + b"\x00"]],
+                                                         ["block_deser", [b1]]]))
+    sq.append(case("seq-genesis", "seq", [["genesis_block", []], ["block_deser", [GENESIS]], ["genesis_block", []],
+                                           ["block_deser", [GENESIS]], ["block_header_deser", [GENESIS[:80]]]]))
+    for n in (1, 2, 3, 5, 6, 7, 12):
+        l = ids(n, 3 * n)
+        sq.append(case("seq-merkle", "seq", [["merkle_root", [l]], ["merkle_root", [l]], ["merkle_root", [l[:-1] or l]],
+                                              ["merkle_root", [l + l[-1:]]], ["merkle_root", [l]]]))
+    for h in (0, 16, 17, 128, 150, 209999, 210000, 32768):
+        a = [b"cb", SPK, None, h, False, None]
+        sq.append(case("seq-coinbase", "seq", [["coinbase_tx", a], ["coinbase_tx", a], ["coinbase_tx", a[:4] + [True, None]],
+                                                ["coinbase_tx", a[:4] + [False, wr]], ["coinbase_tx", a],
+                                                ["coinbase_tx", [b"cb", SPK, 1, h, False, None]],
+                                                ["coinbase_txin", [b"cb", b"\xff" * 4, h]], ["coinbase_txin", [b"cb", b"\xff" * 4, h + 1]],
+                                                ["coinbase_txin", [b"cb", b"\x00" * 4, h]], ["coinbase_txin", [b"x" * 99, b"\xff" * 4, h]],
+                                                ["coinbase_txin", [b"cb", b"\xff" * 4, h]]]))
+    # ---- the command line: `bits blockchain [0] [--decode] [-H]`, `bits mine --limit 1` ----
+    cli_blocks = []
+    for mode in ("legacy", "segwit", "mixed"):
+        for n in ((1, 2, 4) if not T else (1, 2, 3, 4, 7, 20)):
+            txs = [gen_tx(rng, mode == "segwit" or (mode == "mixed" and i % 2 == 0)) for i in range(n)]
+            cli_blocks.append(("ok-" + mode, blk(rng.randbytes(80), txs)))
+    cli_blocks.append(("genesis", GENESIS))
+    cli_blocks.append(("truncated", good[:-2]))
+    cli_blocks.append(("bad-count", good[:80] + b"\x02" + good[81:]))
+    cli_blocks.append(("short-header", good[:60]))
+    cli_blocks.append(("trailing", good + b"\x00"))
+    for name, b in cli_blocks:
+        for fmt in ("hex", "raw", "bin"):
+            for ho in (False, True):
+                via = rng.choice(["stdin", "file"])
+                out.append(case("cli-decode-%s%s" % (name.split("-")[0], "-hdr" if ho else ""), "cli_block_decode", b, fmt, ho, via))
+    for fmt in ("hex", "raw", "bin"):
+        for ho in (False, True):
+            for dec in (False, True):
+                out.append(case("cli-genesis", "cli_genesis", fmt, ho, dec, "file" if (ho and not dec) else "stdout"))
+    for n in (0, 1, 3):
+        for mode in ("legacy", "segwit"):
+            txs = [gen_tx(rng, mode == "segwit") for _ in range(n)]
+            out.append(case("cli-mine-%s" % mode, "cli_mine_block_assemble", SPK, rng.choice([0, 16, 149, 150, 209999]), n % 2 == 1, txs))
+    return out[:4] + sq + out[4:]
 
 
 # ------------------------------------------------------------------------------------------------
@@ -571,6 +753,38 @@ def _check_coinbase(raw, cs, spk, reward, h, regtest, wroot):
 
 def prop_oracle(c):
     op, a = c["op"], c["args"]
+    if op == "seq":
+        # run the history, then every step must (still) satisfy the property's statement for its own input
+        got = _seq(a[0])
+        for i, (o, x) in enumerate(a[0]):
+            e = prop_oracle({"op": o, "args": list(x), "cls": c.get("cls")})
+            if e:
+                return "call %d of the history [%s], %s: %s" % (i + 1, ", ".join(s[0] for s in a[0]), o, e)
+        again = _seq(a[0])
+        if again != got:
+            return "the same history of calls answers differently when repeated"
+        return None
+    if op in ("cli_block_decode", "cli_genesis", "cli_mine_block_assemble"):
+        # the subcommand must say what the library function says (which the clauses below judge)
+        if op == "cli_block_decode":
+            lib = _call(_block_deser, a[0])
+            if lib[0] == "ok" and a[2]:
+                lib = ("ok", lib[1][0])
+            sub = {"op": "block_deser", "args": [a[0]]}
+        elif op == "cli_genesis":
+            lib = _call(_block_deser, GENESIS) if a[2] else ("ok", GENESIS[:80] if a[1] else GENESIS)
+            if a[2] and a[1] and lib[0] == "ok":
+                lib = ("ok", lib[1][0])
+            sub = {"op": "genesis_block", "args": []}
+        else:
+            lib = _call(_mine_block_assemble, *a)
+            sub = {"op": "mine_block_assemble", "args": a}
+        got = _call(IMPL[op], *a)
+        norm_ = lambda v: [norm_(x) for x in v] if isinstance(v, (list, tuple)) else v  # noqa
+        if got[0] != lib[0] or (got[0] == "ok" and norm_(got[1]) != norm_(lib[1])):
+            return "`bits %s` answers %s, the library function %s" % ("mine" if "mine" in op else "blockchain",
+                                                                      str(got)[:120], str(lib)[:120])
+        return prop_oracle(dict(sub, cls=c.get("cls")))
     if op == "merkle_root":
         if not a[0]:
             return None
@@ -801,6 +1015,8 @@ def shrink(c):
 
 def coq_equation(c, mr):
     op, a = c["op"], c["args"]
+    if op == "seq" or op.startswith("cli_"):
+        return None
     o = lambda v: "None" if v is None else "(Some %s)" % coq_lit(v)  # noqa
     if op == "merkle_root" and len(a[0]) <= 9:
         return "c15_merkle_root sha256 %s = %s" % (coq_lit(a[0]), coq_result(mr))
